@@ -286,7 +286,7 @@ class Ctx(object):
         return True
 
     # ------------------------------------------------------------------ run the model inside Coq
-    def coq_filter(self, requires, check_fn, cases, shard=400, timeout=600, prelude=''):
+    def coq_filter(self, requires, check_fn, cases, shard=400, timeout=3000, prelude=''):
         """cases: list of Gallina terms c such that `check_fn c : bool`.  Returns indices where the
         model (evaluated by vm_compute inside coqc) answers false.  Sharded over JOBS processes."""
         if not cases:
@@ -321,6 +321,11 @@ class Ctx(object):
                 running.append((i, pr))
             i, pr = running.pop(0)
             out, _ = pr.communicate()
+            if pr.returncode != 0 and 'Error' not in out:
+                # killed without a Coq error (overloaded machine / OOM): retry this shard once, alone
+                rc2, out = sh('ulimit -s unlimited 2>/dev/null; exec timeout %d coqc -Q %s Verif %s' % (timeout, COQ, files[i]),
+                              cwd=self.scratch)
+                pr.returncode = rc2
             if pr.returncode != 0:
                 raise RuntimeError('coqc failed on generated cases (harness bug or model does not build):\n' + out[-2000:])
             m = re.search(r'=\s*\[([^\]]*)\]\s*:\s*list nat', out.replace('\n', ' '))
